@@ -386,11 +386,13 @@ def grad_kron(argnum, ans, orig_A, orig_B):
     orig_B_shape = anp.shape(orig_B)
 
     def vjp(G):
-        A, B = anp.atleast_2d(orig_A), anp.atleast_2d(orig_B)
-        shape = list(A.shape + B.shape)
-        n = anp.ndim(A)
-        shape[n - 1], shape[n] = shape[n], shape[n - 1]
-        reshaped_G = anp.swapaxes(anp.reshape(G, shape), n - 1, n)
+        # kron left-pads the lower-rank operand's shape with ones and interleaves the axes
+        n = max(len(orig_A_shape), len(orig_B_shape), 2)
+        A = anp.reshape(orig_A, (1,) * (n - len(orig_A_shape)) + orig_A_shape)
+        B = anp.reshape(orig_B, (1,) * (n - len(orig_B_shape)) + orig_B_shape)
+        shape = [d for pair in zip(A.shape, B.shape) for d in pair]
+        perm = list(range(0, 2 * n, 2)) + list(range(1, 2 * n, 2))
+        reshaped_G = anp.transpose(anp.reshape(G, shape), perm)
         if argnum == 0:
             return match_complex(
                 orig_A, anp.reshape(anp.tensordot(reshaped_G, B, axes=anp.ndim(B)), orig_A_shape)
